@@ -74,6 +74,24 @@ Section PcaModel.
   Definition pca_embedding (N D : nat) (X : mat F) (P : mat F) : mat F :=
     project_mat D P (mean_vec N X) X.
 
+  (* embed(), statement by statement.  The chain of statements is extracted from the source by
+     translate/t_pca.py and compared with this composition by Pca_Tie.pca_embed_chain:
+       L0 = compute_mean(begin, end, features, current_dimension)
+       L1 = compute_covariance_matrix(begin, end, L0, features, current_dimension)
+       L2 = eigendecomposition_via(LargestEigenvalues, L1, target_dimension)   <- oracle (V, Lam)
+                                                                                  for what it sees of L1,
+                                                                                  sliced by the view v
+       L3 = MatrixProjectionImplementation(L2.first, L0)
+       return (project(L2.first, L0, ...), L3)
+     result: (embedding, (proj_mat, mean_vec), matrix handed to the solver) *)
+  Definition pca_embed (N D : nat) (X : mat F) (V : mat F) (v : view)
+    : mat F * (mat F * vec F) * mat F :=
+    let L0 := mean_vec N X in
+    let L1 := compute_covariance N X L0 in
+    let L2_first := select_cols V v in
+    let L3 := (L2_first, L0) in
+    (project_mat D L2_first L0 X, L3, L1).
+
   (* ---------------- list level (the loops, as executed / extracted) ---------------- *)
   (* one pass of the accumulation loop over the list of samples, the D x D table being
      re-materialised after every rank update (as the C++ updates the matrix in place) *)
